@@ -37,7 +37,8 @@ MANIFEST = {
     "design_ref": "5/C08",
 }
 MODULES = ["PrimaiteModel.Props.C08", "PrimaiteModel.Props.C08Forward", "PrimaiteModel.Lemmas.ForwardInv",
-           "PrimaiteModel.Props.C08Addressee", "PrimaiteModel.Props.C08Liveness"]
+           "PrimaiteModel.Props.C08Addressee", "PrimaiteModel.Props.C08Liveness", "PrimaiteModel.Props.C08FuelMono",
+           "PrimaiteModel.Props.C08Termination"]
 EXE = "drv_c08"
 
 
